@@ -539,6 +539,11 @@ func (c *CEnv) evalCall(e *CExpr) Val {
 		var r *Term
 		if v.Ty.K == TPtr {
 			r = v.T
+		} else if v.Ty.K == TOpaque && v.Ty.Go != nil && v.T.Sort == SInt {
+			if _, isMap := v.Ty.Go.Underlying().(*types.Map); !isMap {
+				c.errf(e, "fresh: a slice, pointer or map expected")
+			}
+			r = v.T // a map handle
 		} else {
 			r = slReg(c.sliceHeader(e, v).T)
 		}
@@ -641,6 +646,49 @@ func (c *CEnv) evalCall(e *CExpr) Val {
 		return Val{T: And(Eq(a.Seq.Len, b.Seq.Len),
 			Forall([]BoundVar{k}, Implies(And(Le(IntLit(0), kt), Lt(kt, a.Seq.Len)),
 				Eq(Select(a.T, IdxAdd(a.Seq.Off, kt)), Select(b.T, IdxAdd(b.Seq.Off, kt)))))), Ty: tyBool}
+	case "allocated":
+		// allocated(h): the handle / address h denotes an object that exists
+		// in the current state (0 < h < allocation counter)
+		need(1)
+		h := c.eval(e.Args[0])
+		if h.T.Sort != SInt {
+			c.errf(e, "allocated: a map, pointer or other handle expected")
+		}
+		return Val{T: And(Lt(IntLit(0), h.T), Lt(h.T, c.state().alloc)), Ty: tyBool}
+	case "visited":
+		// visited(key) / visited(key, N): the key has been produced by the
+		// range-over-map loop whose invariant this is (resp. by loop N)
+		if len(e.Args) != 1 && len(e.Args) != 2 {
+			c.errf(e, "visited expects a key and optionally a loop number")
+		}
+		k := c.eval(e.Args[0])
+		name := "_seen"
+		if len(e.Args) == 2 {
+			if e.Args[1].Kind != "int" {
+				c.errf(e, "visited: loop number expected")
+			}
+			name = "_seen" + e.Args[1].Name
+		}
+		var set *Term
+		if c.lookup != nil {
+			if v, ok := c.lookup(name); ok && v.T.Sort != SInt && v.T.Sort != SBool {
+				set = v.T
+			}
+		}
+		if set == nil {
+			for o, t := range c.state().vars {
+				if o.Name() == name && len(e.Args) == 2 {
+					set = t
+				}
+			}
+		}
+		if set == nil {
+			c.errf(e, "visited: not inside a range-over-map loop")
+		}
+		if len(e.Args) == 1 {
+			// own loop: when an enclosing map loop exists, _seen resolves to the innermost through extra
+		}
+		return Val{T: Select(set, k.T), Ty: tyBool}
 	case "haskey":
 		need(2)
 		m := c.eval(e.Args[0])
